@@ -84,3 +84,48 @@ Proof.
   destruct (mutation_parents_nearest_proof' t2 t3 insE outsE V E3) as (_ & _ & N).
   destruct (N s site k Hs Hk) as (m' & A & B & _). eauto.
 Qed.
+
+(* ---------------------------------------------------------------------- *)
+(* build_index always succeeds on the output of sort() (no duplicate edge keys) *)
+(* ---------------------------------------------------------------------- *)
+From TskVerif Require Import C07.EdgeOrderProofs.
+
+Theorem sort_then_build_index_ok Q t mds gds t1 :
+  qsorts_ok Q -> check_refs t = true -> edges_wf t mds -> migs_wf t gds ->
+  NoDup (map (edge_key (map n_time (t_nodes t))) (t_edges t)) ->
+  table_sort Q None t = Ok t1 -> exists t2, build_index Q t1 = Ok t2.
+Proof.
+  intros HQ CR EW GW ND E1.
+  destruct (table_sort_spec Q HQ t mds gds CR EW GW) as (t1' & mds' & gds' & sp & mp & E1' & P).
+  rewrite E1 in E1'. inversion E1'; subst t1'. clear E1'.
+  pose proof (sort_post_check_refs t t1 _ _ _ _ _ _ CR EW GW P) as CR1.
+  destruct P as (EW' & _ & Pe & _ & Se & _ & _ & _ & (_ & Sn & _ & _) & _).
+  destruct EW as (_ & _ & Le). destruct EW' as (_ & _ & Le').
+  assert (Pes : Permutation (t_edges t) (t_edges t1)).
+  { apply (Permutation_map fst) in Pe. rewrite !map_fst_combine in Pe by auto. exact Pe. }
+  destruct (check_refs_spec t1 CR1) as [RGe _].
+  set (time := map n_time (t_nodes t1)).
+  assert (Zt : zlen time = zlen (t_nodes t1)) by (unfold time, zlen; now rewrite map_length).
+  unfold build_index. rewrite CR1. cbn [negb]. fold time.
+  replace (length (t_nodes t1)) with (Z.to_nat (zlen time)) by (rewrite Zt; unfold zlen; lia).
+  rewrite edge_order_accepts_sorted.
+  - cbn [bind negb].
+    assert (Tot : forall (h : Z -> erow -> Z -> index_sort) (je : Z * erow), In je (indexed 0 (t_edges t1)) ->
+              exists y, (do tp <- get time (e_parent (snd je)); Ok (h (fst je) (snd je) tp)) = Ok y).
+    { intros h [j e] Hin. simpl. apply indexed_get, get_in in Hin.
+      destruct (get_ok_iff time (e_parent e)) as [_ G]. destruct G as [x G]; [rewrite Zt; auto|].
+      rewrite G. simpl. eauto. }
+    match goal with |- context [bind (mapM ?f ?l) _] =>
+      destruct (mapM_total f l) as [l1 M1];
+        [intros je Hin; exact (Tot (fun j e tp => mkIS j (e_left e) tp (e_parent e) (e_child e)) je Hin)|]
+    end.
+    rewrite M1. cbn [bind].
+    match goal with |- context [bind (mapM ?f ?l) _] =>
+      destruct (mapM_total f l) as [l2 M2];
+        [intros je Hin; exact (Tot (fun j e tp => mkIS j (e_right e) (- tp) (- e_parent e) (- e_child e)) je Hin)|]
+    end.
+    rewrite M2. cbn [bind]. eauto.
+  - intros e He. rewrite Zt. auto.
+  - unfold time. rewrite <- Sn. exact Se.
+  - unfold time. rewrite <- Sn. eapply Permutation_NoDup; [|exact ND]. now apply Permutation_map.
+Qed.
